@@ -201,6 +201,14 @@ func (h *hist) setup() error {
 	if err = h.cl.NewInstance(h.root, "roi", "roi", nil); err != nil {
 		return err
 	}
+	if h.r.Intn(2) == 0 {
+		// the annotation instance is asked for elements before it learns which label volume it follows: whatever it
+		// derives from the synced volume (block size) must follow the later POST sync
+		if _, err := h.w.Get("/api/node/" + h.root + "/syn/elements/64_64_64/0_0_0"); err != nil {
+			return err
+		}
+		h.c.Count("histories_reading_before_sync", 1)
+	}
 	for _, s := range [][2]string{{"syn", "labels"}, {"lsz", "syn"}} {
 		r, err := h.w.PostS("/api/node/"+h.root+"/"+s[0]+"/sync", `{"sync":"`+s[1]+`"}`)
 		if err != nil {
@@ -1951,7 +1959,7 @@ func run(c *drv.Ctx) error {
 	}
 	close(jobs)
 	var wg sync.WaitGroup
-	errs := make(chan error, nw+nh)
+	errs := make(chan error, nw+nh+2)
 	for wi := 0; wi < nw; wi++ {
 		wg.Add(1)
 		go func(wi int) {
@@ -1989,6 +1997,17 @@ func run(c *drv.Ctx) error {
 			}
 		}(wi)
 	}
+	wg.Add(1)
+	go func() {
+		defer wg.Done()
+		if err := bulkTagReload(c, bin); err != nil {
+			if err == drv.ErrWatchdog || strings.Contains(err.Error(), "watchdog") {
+				c.Inconclusive(fmt.Sprintf("bulk tag reload: %v", err))
+				return
+			}
+			errs <- fmt.Errorf("bulk tag reload: %v", err)
+		}
+	}()
 	wg.Wait()
 	close(errs)
 	var all []string
